@@ -122,7 +122,7 @@ structure Item where
   p : Prim
   s : Scalar
 
-def Item.name (it : Item) : String := it.g.toLower
+def Item.name (it : Item) : String := goLower it.g
 
 def Item.good (std : Stdlib) (o : Opts) (it : Item) : Prop :=
   exported it.g = true ∧ C09.SimpleKey o it.name ∧ normValue o it.x = .ok (.prim it.p) ∧ it.p ≠ .nil ∧
